@@ -360,6 +360,13 @@ func (x *Exec) iteVal(c string, a, b Val) Val {
 	if !refVal {
 		r.Key, r.Old = "", false
 	}
+	// a nil pointer merged with an element pointer: nil carries index 0 (it is never followed)
+	if a.Idx == "" && b.Idx != "" && isNilConst(a) {
+		a.Idx = bvLit(0, 64)
+	}
+	if b.Idx == "" && a.Idx != "" && isNilConst(b) {
+		b.Idx = bvLit(0, 64)
+	}
 	if (a.Idx == "") != (b.Idx == "") {
 		unsup("merge of element and object pointers")
 	}
